@@ -6,12 +6,15 @@ from .. import gen
 
 def kauri_case(seed, prop, i, nmax=40, big=0.02):
     rng = gen.rng_for(seed, prop, "kfit", i)
-    if big and gen.rng_for(seed, prop, "kfit-big", i).random() < big:
-        # a long fit: dozens of clusters, up to ~100 leaves, no structural limit binding early - whatever bookkeeping
-        # grows with the tree is exercised well past its first allocation
-        n, d = int(rng.integers(90, 161)), int(rng.integers(1, 4))
+    if big and i % 50 == 17:
+        # a long fit (one case in fifty, deterministically): dozens of clusters, up to ~100 leaves, no structural limit
+        # binding early - whatever bookkeeping grows with the tree is exercised well past its first allocation; every
+        # other one of them asks for more than 64 clusters
+        over64 = (i // 50) % 2 == 0
+        n, d = (int(rng.integers(130, 161)) if over64 else int(rng.integers(90, 161))), int(rng.integers(1, 4))
         X = gen.make_data(rng, n, d, "blobs", centers=int(rng.integers(3, 12)))
-        p = {"random_state": gen.subseed(rng) % 100000, "max_clusters": int(rng.integers(34, max(36, int(0.6 * n)))),
+        K = int(rng.integers(66, 81)) if over64 else int(rng.integers(34, max(36, int(0.6 * n))))
+        p = {"random_state": gen.subseed(rng) % 100000, "max_clusters": K,
              "kernel": ["rbf", "linear", "laplacian"][int(rng.integers(0, 3))], "min_samples_leaf": 1, "min_samples_split": 2}
         if rng.random() < 0.3:
             p["min_samples_leaf"], p["min_samples_split"] = 2, int(rng.integers(4, 7))
